@@ -546,7 +546,26 @@ fn probs_of(ws: &[M]) -> Vec<f64> {
     ws.iter().map(|m| m.f() / total).collect()
 }
 
-fn sample_counts<D: Distribution<usize> + Sync>(d: &D, len: usize, n: u64, seed: u64) -> Result<Vec<u64>, String> {
+/// Err("hang…") if the sampling did not finish within the deadline (a stuck sample() call: abandoned)
+fn sample_counts<D: Distribution<usize> + Sync + Send + Clone + 'static>(d: &D, len: usize, n: u64, seed: u64) -> Result<Vec<u64>, String> {
+    use std::sync::atomic::AtomicBool;
+    static GAVE_UP: AtomicBool = AtomicBool::new(false);
+    if GAVE_UP.load(Ordering::Relaxed) {
+        return Err("skipped: an earlier sampling run of this check hung".into());
+    }
+    let d2 = d.clone();
+    // generous: 1e7 draws take well under a second; the deadline only catches non-terminating calls
+    let secs = 60 + n / 2_000_000;
+    match crate::report::deadline(secs, move || sample_counts_inner(&d2, len, n, seed)) {
+        Some(r) => r,
+        None => {
+            GAVE_UP.store(true, Ordering::Relaxed);
+            Err(format!("hang: sampling {} indices did not finish within {} s (a sample() call does not return)", n, secs))
+        }
+    }
+}
+
+fn sample_counts_inner<D: Distribution<usize> + Sync>(d: &D, len: usize, n: u64, seed: u64) -> Result<Vec<u64>, String> {
     let chunks = 16u64;
     let per = n / chunks;
     let parts: Vec<Result<Vec<u64>, String>> = (0..chunks)
@@ -575,7 +594,7 @@ fn sample_counts<D: Distribution<usize> + Sync>(d: &D, len: usize, n: u64, seed:
 
 pub fn alias_sampling<W: Wt>(ctx: &Ctx, vectors: usize, n: u64)
 where
-    WeightedAliasIndex<W>: Sync,
+    WeightedAliasIndex<W>: Sync + Send + Clone,
 {
     let lat = lattice();
     let mut r = BaseRng::from_env(hseed(&[ctx.seed, crate::rng::hstr(W::NAME), 0xC08]));
@@ -617,7 +636,8 @@ where
             Ok(freq_reject(&counts[..len], &probs, (n / 16) * 16, rho_abs, rho_rel))
         };
         match judge(n, seed) {
-            Err(m) => viol(ctx, "WeightedAliasIndex", W::NAME, if m.contains("panic") { "panic" } else { "bad_index" }, "random_stream", format!("WeightedAliasIndex<{}> {}: {}", W::NAME, show(&ws), m), json!({"kind": "alias_sample", "alias": AliasCase { wt: W::NAME.into(), ws: ws.clone() }, "n": n})),
+            Err(m) if m.starts_with("skipped") => ctx.class("c08:frequency_runs_skipped_after_hang", 1),
+            Err(m) => viol(ctx, "WeightedAliasIndex", W::NAME, if m.starts_with("hang") { "hang" } else if m.contains("panic") { "panic" } else { "bad_index" }, "random_stream", format!("WeightedAliasIndex<{}> {}: {}", W::NAME, show(&ws), m), json!({"kind": "alias_sample", "alias": AliasCase { wt: W::NAME.into(), ws: ws.clone() }, "n": n})),
             Ok(Some(first)) => {
                 if let Ok(Some(second)) = judge(4 * n, hseed(&[seed, 0xC0F1])) {
                     if second.0 == first.0 {
@@ -712,7 +732,7 @@ pub fn alias_random_structural<W: Wt>(ctx: &Ctx, cases: u32) {
 
 fn c08_one<W: Wt>(ctx: &Ctx)
 where
-    WeightedAliasIndex<W>: Sync,
+    WeightedAliasIndex<W>: Sync + Send + Clone,
 {
     let thorough = ctx.thorough();
     alias_exhaustive::<W>(ctx, if W::IS_FLOAT { 5 } else { 6 });
@@ -1202,11 +1222,12 @@ pub fn run_c09(ctx: &Ctx) {
 // ---- C10 -----------------------------------------------------------------------------------------
 
 /// Build a tree by replaying a (valid part of a) history; returns tree and model.
-fn state_from_history<W: Wt>(ops: &[Op]) -> Option<(WeightedTreeIndex<W>, Vec<M>)> {
+/// A panic inside an operation is returned as Err (the state cannot be built: reported by the caller).
+fn state_from_history<W: Wt>(ops: &[Op]) -> Option<Result<(WeightedTreeIndex<W>, Vec<M>), String>> {
     let mut model: Vec<M> = vec![];
     let mut tree = WeightedTreeIndex::<W>::new(Vec::<W>::new()).ok()?;
-    for op in ops {
-        match op {
+    for (step, op) in ops.iter().enumerate() {
+        let r = catch(|| match op {
             Op::New(ws) => {
                 if let Ok(t) = WeightedTreeIndex::<W>::new(ws.iter().map(|&m| W::from_m(m)).collect::<Vec<W>>()) {
                     tree = t;
@@ -1230,9 +1251,12 @@ fn state_from_history<W: Wt>(ops: &[Op]) -> Option<(WeightedTreeIndex<W>, Vec<M>
                     }
                 }
             }
+        });
+        if let Err(p) = r {
+            return Some(Err(format!("step {} {} panicked: {}", step, op_show(op), p.lines().next().unwrap_or(""))));
         }
     }
-    Some((tree, model))
+    Some(Ok((tree, model)))
 }
 
 fn gen_history<W: Wt>(r: &mut BaseRng, target_len: usize, mutations: usize) -> Vec<Op> {
@@ -1342,7 +1366,7 @@ fn tree_sample_check<W: Wt>(tree: &WeightedTreeIndex<W>, model: &[M], rng: &mut 
 
 fn c10_one<W: Wt>(ctx: &Ctx)
 where
-    WeightedTreeIndex<W>: Sync,
+    WeightedTreeIndex<W>: Sync + Send + Clone,
 {
     let t = ctx.thorough();
     let checked = cfg!(debug_assertions);
@@ -1361,7 +1385,11 @@ where
         let muts = if si % 4 == 0 { 0 } else { r.random_range(1..=60usize) };
         let ops = gen_history::<W>(&mut r, len, muts);
         let (tree, model) = match state_from_history::<W>(&ops) {
-            Some(x) => x,
+            Some(Ok(x)) => x,
+            Some(Err(msg)) => {
+                viol(ctx, "WeightedTreeIndex", W::NAME, "panic_building_state", "history", format!("WeightedTreeIndex<{}>: an operation with an in-range index panicked while building a state: {}", W::NAME, msg), json!({"kind": "tree", "tree": TreeCase { wt: W::NAME.into(), ops: if ops.len() <= 400 { ops.clone() } else { vec![] } }}));
+                continue;
+            }
             None => continue,
         };
         let seed = hseed(&[ctx.seed, si as u64, 0x7EE]);
@@ -1391,25 +1419,46 @@ where
                 words.push((((1u64 << 23) - 1 - k) << 41) | ((1u64 << 41) - 1));
             }
         }
-        let mut ev = 0u64;
-        let mut seen_roots = std::collections::HashSet::new();
-        for pos in 0..2u64 {
-            for &w in &words {
-                let mut rng = VRng::from_env(seed);
-                rng.force(pos, w);
-                rng.begin_call();
-                ev += 1;
-                if let Some((sym, msg)) = tree_sample_check::<W>(&tree, &model, &mut rng) {
-                    // one representative per (symptom, word class) and state; long histories are not stored in full
-                    if seen_roots.insert((sym.clone(), crate::streams::word_class(w))) && ops.len() <= 400 {
-                        viol(ctx, "WeightedTreeIndex", W::NAME, &sym, crate::streams::word_class(w), msg, json!({"kind": "tree_sample", "tree_sample": TreeSampleCase { wt: W::NAME.into(), ops: ops.clone(), pos, word: w, seed }}));
-                    } else if seen_roots.len() == 1 && ops.len() > 400 {
-                        viol(ctx, "WeightedTreeIndex", W::NAME, &sym, crate::streams::word_class(w), msg, json!({"kind": "tree_sample_long", "ops": ops.len()}));
-                        seen_roots.insert(("_long".to_string(), "_"));
+        // the adversarial phase runs under a deadline: a corrupted tree may make try_sample descend forever
+        let (t2, m2, o2, w2) = (tree.clone(), model.clone(), ops.clone(), words.clone());
+        let phase = crate::report::deadline(120, move || {
+            crate::report::quiet_panics();
+            let mut found: Vec<(String, &'static str, String, Value)> = vec![];
+            let mut ev = 0u64;
+            let mut seen_roots = std::collections::HashSet::new();
+            for pos in 0..2u64 {
+                for &w in &w2 {
+                    let mut rng = VRng::from_env(seed);
+                    rng.force(pos, w);
+                    rng.begin_call();
+                    ev += 1;
+                    if let Some((sym, msg)) = tree_sample_check::<W>(&t2, &m2, &mut rng) {
+                        // one representative per (symptom, word class) and state; long histories are not stored in full
+                        if seen_roots.insert((sym.clone(), crate::streams::word_class(w))) {
+                            let case = if o2.len() <= 400 {
+                                json!({"kind": "tree_sample", "tree_sample": TreeSampleCase { wt: W::NAME.into(), ops: o2.clone(), pos, word: w, seed }})
+                            } else {
+                                json!({"kind": "tree_sample_long", "ops": o2.len()})
+                            };
+                            found.push((sym, crate::streams::word_class(w), msg, case));
+                        }
                     }
                 }
             }
-        }
+            (ev, found)
+        });
+        let ev = match phase {
+            Some((ev, found)) => {
+                for (sym, cls, msg, case) in found {
+                    viol(ctx, "WeightedTreeIndex", W::NAME, &sym, cls, msg, case);
+                }
+                ev
+            }
+            None => {
+                viol(ctx, "WeightedTreeIndex", W::NAME, "hang", "history", format!("WeightedTreeIndex<{}> {} after {} mutations: try_sample did not return within 120 s", W::NAME, show(&model), muts), json!({"kind": "tree", "tree": TreeCase { wt: W::NAME.into(), ops: if ops.len() <= 400 { ops.clone() } else { vec![] } }}));
+                continue;
+            }
+        };
         ctx.eval(ev);
         ctx.nontrivial_add(ev / 2);
         if !tree.is_valid() {
@@ -1447,7 +1496,8 @@ where
             Ok(freq_reject(&counts[..len], &probs, (n / 16) * 16, rho_abs, rho_rel))
         };
         match judge(nn, seed) {
-            Err(m) => viol(ctx, "WeightedTreeIndex", W::NAME, if m.contains("zero-weight") { "zero_weight_index" } else { "panic" }, "random_stream", format!("WeightedTreeIndex<{}> {} after {} mutations: {}", W::NAME, show(&model), muts, m), json!({"kind": "tree_freq", "tree": TreeCase { wt: W::NAME.into(), ops: ops.clone() }, "n": nn})),
+            Err(m) if m.starts_with("skipped") => ctx.class("c10:frequency_runs_skipped_after_hang", 1),
+            Err(m) => viol(ctx, "WeightedTreeIndex", W::NAME, if m.contains("zero-weight") { "zero_weight_index" } else if m.starts_with("hang") { "hang" } else { "panic" }, "random_stream", format!("WeightedTreeIndex<{}> {} after {} mutations: {}", W::NAME, show(&model), muts, m), json!({"kind": "tree_freq", "tree": TreeCase { wt: W::NAME.into(), ops: ops.clone() }, "n": nn})),
             Ok(Some(first)) => {
                 if let Ok(Some(second)) = judge(4 * nn, hseed(&[seed, 0xC0F1])) {
                     if second.0 == first.0 {
@@ -1470,8 +1520,8 @@ fn c10_f32_exhaustive(ctx: &Ctx) {
         let muts = r.random_range(0..=20usize);
         let ops = gen_history::<f32>(&mut r, len, muts);
         let (tree, model) = match state_from_history::<f32>(&ops) {
-            Some(x) => x,
-            None => continue,
+            Some(Ok(x)) => x,
+            _ => continue,
         };
         if !tree.is_valid() {
             continue;
@@ -1574,7 +1624,7 @@ fn replay_tree<W: Wt>(ctx: &Ctx, ops: &[Op]) {
     }
 }
 fn replay_tree_sample<W: Wt>(ctx: &Ctx, c: &TreeSampleCase) {
-    if let Some((tree, model)) = state_from_history::<W>(&c.ops) {
+    if let Some(Ok((tree, model))) = state_from_history::<W>(&c.ops) {
         let mut rng = VRng::from_env(c.seed);
         rng.force(c.pos, c.word);
         if let Some((sym, msg)) = tree_sample_check::<W>(&tree, &model, &mut rng) {
